@@ -374,6 +374,61 @@ example := truncated_prefix [1, 2, 1, 1, 2] [1, 2, 3] [1, 2, 3, 4, 5] (by decide
 
 /-! ## 5b. The functions the driver runs, end to end -/
 
+theorem rowLen_kymoImage (P : Nat) (hP : 0 < P) (px : List Int) :
+    (kymoImage P px).length = P ∧ rowLen (kymoImage P px) = (px.length + P - 1) / P := by
+  have hsh := kymo_shape P hP px
+  refine ⟨hsh.1, ?_⟩
+  unfold rowLen
+  cases hk : kymoImage P px with
+  | nil => rw [hk] at hsh; simp at hsh; omega
+  | cons row rest => rw [hk] at hsh; simpa using hsh.2 row (by simp)
+
+/-- The image `Scan._to_spatial` makes of a non-empty pixel list (two distinct axes, ≥ 2 pixels each). -/
+theorem scan_image_of_pixels (fa P sa L : Nat) (hax : fa ≠ sa) (hP : 2 ≤ P) (hL : 2 ≤ L)
+    (px : List Int) (hpx : px.length ≠ 0) :
+    imageOfPixels (.scan [(fa, P), (sa, L)]) (.ok px) =
+      .ok ⟨(if (px.length + L * P - 1) / (L * P) = 1 then [] else [(px.length + L * P - 1) / (L * P)])
+            ++ (if sa < fa then [P, L] else [L, P]),
+          (scanFrames L P (decide (sa < fa)) px).flatten.flatten⟩ := by
+  obtain ⟨m1, m2, m3, _⟩ := scan_axes_meta fa P sa L hax
+  unfold imageOfPixels
+  simp only [m1, m2, m3]
+  have hsh := scan_shape L P (by omega) (by omega) (decide (sa < fa)) px
+  congr 1
+  cases hk : scanFrames L P (decide (sa < fa)) px with
+  | nil =>
+    rw [hk] at hsh
+    have hLP : 0 < L * P := Nat.mul_pos (by omega) (by omega)
+    have := ceil_div_spec px.length (L * P) hLP
+    have h1 := hsh.1
+    simp only [List.length_nil] at h1
+    rw [← h1] at this
+    omega
+  | cons fr rest =>
+    rw [hk] at hsh
+    obtain ⟨hlen, hfr⟩ := hsh
+    have hfr0 := hfr fr (by simp)
+    have hrows : fr.length = if sa < fa then P else L := by simpa using hfr0.1
+    have hcols : rowLen fr = if sa < fa then L else P := by
+      unfold rowLen
+      cases hf : fr with
+      | nil => rw [hf] at hrows; simp at hrows; split at hrows <;> omega
+      | cons row _ =>
+        have := hfr0.2 row (by rw [hf]; simp)
+        simpa using this
+    simp only [List.head?_cons, Option.map_some, Option.getD_some, hrows, hcols, ← hlen]
+    unfold squeezeShape
+    have hP1 : (P != 1) = true := by rw [bne_iff_ne]; omega
+    have hL1 : (L != 1) = true := by rw [bne_iff_ne]; omega
+    generalize (fr :: rest).length = F
+    by_cases hflip : sa < fa <;> by_cases hF : F = 1
+    · subst hF; simp [hflip, hP1, hL1]
+    · have hF1 : (F != 1) = true := by rw [bne_iff_ne]; exact hF
+      simp [hflip, hP1, hL1, hF1, hF]
+    · subst hF; simp [hflip, hP1, hL1]
+    · have hF1 : (F != 1) = true := by rw [bne_iff_ne]; exact hF
+      simp [hflip, hP1, hL1, hF1, hF]
+
 /-- `Kymo.get_image(colour)` for a full-length channel: shape `P × ⌈#boundaries / P⌉`, entries those
     of `kymoImage` applied to the specification pixels (see `kymo_placement`). -/
 theorem kymo_get_image (P : Nat) (hP : 0 < P) (iw : List Nat) (chan : List Int)
@@ -406,47 +461,12 @@ theorem scan_get_image (fa P sa L : Nat) (hax : fa ≠ sa) (hP : 2 ≤ P) (hL : 
       .ok ⟨(if (iw.count 2 + L * P - 1) / (L * P) = 1 then [] else [(iw.count 2 + L * P - 1) / (L * P)])
             ++ (if sa < fa then [P, L] else [L, P]),
           (scanFrames L P (decide (sa < fa)) (pixelsSpec chan iw)).flatten.flatten⟩ := by
-  obtain ⟨m1, m2, m3, _⟩ := scan_axes_meta fa P sa L hax
-  unfold scanGetImage
-  simp only [m1, m2, m3]
-  rw [full_channel iw chan h h0, reconstructSum_spec]
+  rw [scanGetImage_eq, full_channel iw chan h h0, reconstructSum_spec]
   simp only [h, ne_eq, not_true_eq_false, if_false, hb]
-  have hsh := scan_shape L P (by omega) (by omega) (decide (sa < fa)) (pixelsSpec chan iw)
-  rw [pixels_count chan iw h] at hsh
-  congr 1
-  cases hk : scanFrames L P (decide (sa < fa)) (pixelsSpec chan iw) with
-  | nil =>
-    rw [hk] at hsh
-    have hLP : 0 < L * P := Nat.mul_pos (by omega) (by omega)
-    have := ceil_div_spec (iw.count 2) (L * P) hLP
-    have h1 := hsh.1
-    simp only [List.length_nil] at h1
-    rw [← h1] at this
-    omega
-  | cons fr rest =>
-    rw [hk] at hsh
-    obtain ⟨hlen, hfr⟩ := hsh
-    have hfr0 := hfr fr (by simp)
-    have hrows : fr.length = if sa < fa then P else L := by simpa using hfr0.1
-    have hcols : rowLen fr = if sa < fa then L else P := by
-      unfold rowLen
-      cases hf : fr with
-      | nil => rw [hf] at hrows; simp at hrows; split at hrows <;> omega
-      | cons row _ =>
-        have := hfr0.2 row (by rw [hf]; simp)
-        simpa using this
-    simp only [List.head?_cons, Option.map_some, Option.getD_some, hrows, hcols, ← hlen]
-    unfold squeezeShape
-    have hP1 : (P != 1) = true := by rw [bne_iff_ne]; omega
-    have hL1 : (L != 1) = true := by rw [bne_iff_ne]; omega
-    generalize (fr :: rest).length = F
-    by_cases hflip : sa < fa <;> by_cases hF : F = 1
-    · subst hF; simp [hflip, hP1, hL1]
-    · have hF1 : (F != 1) = true := by rw [bne_iff_ne]; exact hF
-      simp [hflip, hP1, hL1, hF1, hF]
-    · subst hF; simp [hflip, hP1, hL1]
-    · have hF1 : (F != 1) = true := by rw [bne_iff_ne]; exact hF
-      simp [hflip, hP1, hL1, hF1, hF]
+  have := scan_image_of_pixels fa P sa L hax hP hL (pixelsSpec chan iw)
+    (by rw [pixels_count chan iw h]; exact hb)
+  rw [pixels_count chan iw h] at this
+  exact this
 
 example : scanGetImage [(1, 2), (0, 2)] [1, 2, 2, 0, 2, 2, 2] [1, 2, 3, 9, 4, 5, 6]
     = .ok ⟨[2, 2, 2], [3, 4, 3, 5, 6, 0, 0, 0]⟩ := by decide
@@ -623,5 +643,224 @@ theorem kymo_no_data_same_shape (P : Nat) (hP : 0 < P) (iw : List Nat) (s0 s1 : 
 -- after the first-line repair (start = sample 4) of a kymograph whose green stream starts one sample late
 example := kymo_no_data_same_shape 2 (by decide) [1, 2, 2, 0, 2, 2, 0, 2, 2] ⟨0, []⟩ ⟨-1, [1, 2, 3, 4, 5, 6, 7, 8]⟩ 4
   (by decide) (by decide) (by decide) (by decide)
+
+/-! ## 8. Deepening round D: every channel length, conservation end to end, history independence -/
+
+/-- Conservation without hypotheses: the pixels of ANY stream add up to the total count of its used
+    samples up to the last pixel boundary (`uptoLastBoundary` strips the trailing non-boundary samples). -/
+theorem pixel_sum_total (s : List Sample) :
+    (pixelsSpecAux 0 s).sum = usedSum (uptoLastBoundary s) := by
+  obtain ⟨tail, hs, ht, hb⟩ := uptoLast_split s
+  have := pixel_sum_conserved (uptoLastBoundary s) tail hb ht
+  rw [← hs] at this
+  exact this
+
+
+example : (pixelsSpecAux 0 [(9, 0), (1, 1), (2, 2), (7, 0), (3, 2), (5, 1), (6, 0)]).sum = 6 ∧
+    usedSum (uptoLastBoundary [(9, 0), (1, 1), (2, 2), (7, 0), (3, 2), (5, 1), (6, 0)]) = 6 := by decide
+
+/-- `_get_confocal_data` + `reconstruct_image_sum`, complete behaviour for ANY photon slice (absent, shorter or
+    longer than the info wave, of equal length): the specification walk over the shared span. -/
+theorem channelPixels_spec (iw : List Nat) (chan : List Int) :
+    channelPixels iw chan = match colourPixelsSpec iw chan with
+      | none => .err "IndexError"
+      | some px => .ok px := by
+  unfold colourPixelsSpec
+  by_cases h0 : chan.length = 0
+  · rw [if_pos h0]
+    have : chan = [] := List.length_eq_zero_iff.mp h0
+    subst this
+    by_cases hb : iw.count 2 = 0
+    · rw [if_pos hb]
+      unfold channelPixels
+      simp only [List.length_nil, if_true]
+      rw [reconstructSum_spec]
+      simp [hb]
+    · rw [if_neg hb, missing_colour_zero iw hb]
+  · rw [if_neg h0, map_snd_zip_min]
+    unfold channelPixels
+    rw [if_neg h0]
+    have hal : align chan iw = (chan.take (min chan.length iw.length), iw.take (min chan.length iw.length)) := by
+      unfold align
+      by_cases hl : chan.length = iw.length
+      · rw [if_neg (by simpa using hl), hl, Nat.min_self, List.take_length, ← hl, List.take_length]
+      · simp [hl]
+    rw [hal, reconstructSum_spec]
+    simp only
+    have hlen : (chan.take (min chan.length iw.length)).length = (iw.take (min chan.length iw.length)).length := by
+      simp only [List.length_take]; omega
+    rw [if_neg (by simp [hlen])]
+    unfold pixelsSpec
+    rw [zip_take_min]
+    by_cases hb : (iw.take (min chan.length iw.length)).count 2 = 0
+    · rw [if_pos hb, if_pos hb]
+    · rw [if_neg hb, if_neg hb]
+
+example : channelPixels [0, 1, 2, 2, 0, 1, 2] [9, 1, 2, 3, 9] = .ok [3, 3] := by decide
+example : colourPixelsSpec [0, 1, 2, 2, 0, 1, 2] [9, 1, 2, 3, 9] = some [3, 3] := by decide
+
+theorem colour_pixels_count (iw : List Nat) (chan : List Int) (px : List Int)
+    (h : colourPixelsSpec iw chan = some px) :
+    px.length = (if chan.length = 0 then iw.count 2 else ((chan.zip iw).map (·.2)).count 2) ∧
+    px.length ≠ 0 := by
+  unfold colourPixelsSpec at h
+  by_cases h0 : chan.length = 0
+  · rw [if_pos h0] at h ⊢
+    by_cases hb : iw.count 2 = 0
+    · rw [if_pos hb] at h; cases h
+    · rw [if_neg hb] at h; cases h; simp [hb]
+  · rw [if_neg h0] at h ⊢
+    by_cases hb : ((chan.zip iw).map (·.2)).count 2 = 0
+    · rw [if_pos hb] at h; cases h
+    · rw [if_neg hb] at h; cases h
+      rw [spec_length]; exact ⟨rfl, hb⟩
+
+theorem colour_pixels_sum (iw : List Nat) (chan : List Int) (px : List Int)
+    (h : colourPixelsSpec iw chan = some px) :
+    px.sum = usedSum (uptoLastBoundary (chan.zip iw)) := by
+  unfold colourPixelsSpec at h
+  by_cases h0 : chan.length = 0
+  · rw [if_pos h0] at h
+    have : chan = [] := List.length_eq_zero_iff.mp h0
+    subst this
+    by_cases hb : iw.count 2 = 0
+    · rw [if_pos hb] at h; cases h
+    · rw [if_neg hb] at h; cases h
+      rw [sum_replicate_zero]; rfl
+  · rw [if_neg h0] at h
+    by_cases hb : ((chan.zip iw).map (·.2)).count 2 = 0
+    · rw [if_pos hb] at h; cases h
+    · rw [if_neg hb] at h; cases h
+      exact pixel_sum_total _
+
+/-- `Kymo.get_image(colour)` for ANY channel (absent, shorter or longer than the info wave, full). -/
+theorem kymo_get_image_any (P : Nat) (hP : 0 < P) (iw : List Nat) (chan : List Int) :
+    kymoGetImage P iw chan = match colourPixelsSpec iw chan with
+      | none => .err "IndexError"
+      | some px => .ok ⟨[P, (px.length + P - 1) / P], (kymoImage P px).flatten⟩ := by
+  rw [kymoGetImage_eq, channelPixels_spec]
+  cases colourPixelsSpec iw chan with
+  | none => rfl
+  | some px =>
+    show Res.ok (Image.mk [(kymoImage P px).length, rowLen (kymoImage P px)] _) = _
+    rw [(rowLen_kymoImage P hP px).1, (rowLen_kymoImage P hP px).2]
+
+/-- `Scan.get_image(colour)` for ANY channel. -/
+theorem scan_get_image_any (fa P sa L : Nat) (hax : fa ≠ sa) (hP : 2 ≤ P) (hL : 2 ≤ L) (iw : List Nat)
+    (chan : List Int) :
+    scanGetImage [(fa, P), (sa, L)] iw chan = match colourPixelsSpec iw chan with
+      | none => .err "IndexError"
+      | some px =>
+        .ok ⟨(if (px.length + L * P - 1) / (L * P) = 1 then [] else [(px.length + L * P - 1) / (L * P)])
+              ++ (if sa < fa then [P, L] else [L, P]),
+            (scanFrames L P (decide (sa < fa)) px).flatten.flatten⟩ := by
+  rw [scanGetImage_eq, channelPixels_spec]
+  cases h : colourPixelsSpec iw chan with
+  | none => rfl
+  | some px => exact scan_image_of_pixels fa P sa L hax hP hL px (colour_pixels_count iw chan px h).2
+
+/-- Conservation, end to end: the total of the image `Kymo.get_image(colour)` returns is the total count of
+    the non-discarded samples of the span the info wave shares with the photon stream, up to its last
+    pixel boundary. -/
+theorem kymo_image_total (P : Nat) (hP : 0 < P) (iw : List Nat) (chan : List Int) (im : Image)
+    (h : kymoGetImage P iw chan = .ok im) :
+    im.flat.sum = usedSum (uptoLastBoundary (chan.zip iw)) := by
+  rw [kymo_get_image_any P hP] at h
+  cases hs : colourPixelsSpec iw chan with
+  | none => rw [hs] at h; cases h
+  | some px =>
+    rw [hs] at h
+    cases h
+    show (kymoImage P px).flatten.sum = _
+    rw [image_total_kymo P hP, colour_pixels_sum iw chan px hs]
+
+theorem scan_image_total (fa P sa L : Nat) (hax : fa ≠ sa) (hP : 2 ≤ P) (hL : 2 ≤ L) (iw : List Nat)
+    (chan : List Int) (im : Image) (h : scanGetImage [(fa, P), (sa, L)] iw chan = .ok im) :
+    im.flat.sum = usedSum (uptoLastBoundary (chan.zip iw)) := by
+  rw [scan_get_image_any fa P sa L hax hP hL] at h
+  cases hs : colourPixelsSpec iw chan with
+  | none => rw [hs] at h; cases h
+  | some px =>
+    rw [hs] at h
+    cases h
+    show (scanFrames L P _ px).flatten.flatten.sum = _
+    rw [image_total_scan L P (by omega) (by omega), colour_pixels_sum iw chan px hs]
+
+example : kymoGetImage 2 [0, 1, 2, 2, 0, 1, 2, 1] [9, 1, 2, 3, 9, 4] = .ok ⟨[2, 1], [3, 3]⟩ := by decide
+example : usedSum (uptoLastBoundary ([9, 1, 2, 3, 9, 4].zip [0, 1, 2, 2, 0, 1, 2, 1])) = 6 := by decide
+example := kymo_image_total 2 (by decide) [0, 1, 2, 2, 0, 1, 2, 1] [9, 1, 2, 3, 9, 4] _ rfl
+
+/-- The function behind the protocol op `c02.total` is the total of the image `get_image` returns. -/
+theorem expected_total_kymo (P : Nat) (hP : 0 < P) (iw : List Nat) (chan : List Int) :
+    expectedTotal iw chan = match kymoGetImage P iw chan with
+      | .err e => .err e
+      | .ok im => .ok im.flat.sum := by
+  cases hk : kymoGetImage P iw chan with
+  | err e =>
+    rw [kymo_get_image_any P hP] at hk
+    unfold expectedTotal
+    cases hs : colourPixelsSpec iw chan with
+    | none => rw [hs] at hk; cases hk; rfl
+    | some px => rw [hs] at hk; cases hk
+  | ok im =>
+    have ht := kymo_image_total P hP iw chan im hk
+    rw [kymo_get_image_any P hP] at hk
+    unfold expectedTotal
+    cases hs : colourPixelsSpec iw chan with
+    | none => rw [hs] at hk; cases hk
+    | some px => simp only [ht]
+
+example : expectedTotal [0, 1, 2, 2, 0, 1, 2, 1] [9, 1, 2, 3, 9, 4] = .ok 6 := by decide
+
+theorem settled_fresh (k : Kind) (iw : List Nat) (ss : Streams)
+    (h : ∀ c, startsLate iw.length 0 (streamOf ss c) = false) : Settled k iw ss ObjState.fresh :=
+  ⟨coherent_fresh k iw ss, h⟩
+
+/-- An object none of whose photon streams starts inside it: every answer of ANY sequence of queries
+    (colours, rgb, `Kymo.shape`) is the answer a new object gives to that query asked first — THE image of
+    a colour does not depend on what was asked before — and the object's start never moves. -/
+theorem answers_history_independent (k : Kind) (iw : List Nat) (ss : Streams) (qs : List Nat)
+    (h : ∀ c, startsLate iw.length 0 (streamOf ss c) = false) :
+    runSeq k iw ss ObjState.fresh qs = qs.map (fun q => (query k iw ss ObjState.fresh q).2) ∧
+    (stateAfter k iw ss ObjState.fresh qs).off = 0 := by
+  have hs := settled_fresh k iw ss h
+  obtain ⟨h1, h2⟩ := runSeq_settled k iw ss qs _ hs
+  refine ⟨?_, h2⟩
+  rw [h1]
+  apply List.map_congr_left
+  intro q _
+  exact (query_settled k iw ss _ q hs).1.symm
+
+example : ∀ c, startsLate 7 0 (streamOf [⟨0, []⟩, ⟨1, [5, 1, 2, 3, 4, 5, 6]⟩, ⟨-7, [1, 2]⟩] c) = false := by
+  intro c
+  match c with
+  | 0 => decide
+  | 1 => decide
+  | 2 => decide
+  | n + 3 => rfl
+
+
+/-- The one-shot functions of section 5b (`c02.kymo`, `c02.scan`) are the first answer of the stateful
+    model: the photon slice `photonCount` hands over exists exactly when the stream does not start inside
+    the item, and then the first `get_image(colour)` of a new object is the image of that slice. -/
+theorem first_query_is_get_image (k : Kind) (iw : List Nat) (s : Stream) (c : Nat) :
+    (photonCount iw.length s.lead s.data = none ↔ startsLate iw.length 0 s = true) ∧
+    ∀ pc, photonCount iw.length s.lead s.data = some pc →
+      (queryColour k iw s c ObjState.fresh).2 = imageOfPixels k (channelPixels iw pc) ∧
+      (queryColour k iw s c ObjState.fresh).1.off = 0 :=
+  first_query_lemma k iw s c
+
+example : photonCount 7 1 [5, 1, 2, 3, 4, 5, 6] = some [1, 2, 3, 4, 5, 6] := by decide
+example := (first_query_is_get_image (.kymo 2) [0, 1, 2, 2, 0, 1, 2] ⟨1, [5, 1, 2, 3, 4, 5, 6]⟩ 1).2 _ rfl
+
+/-- Asking the same colour again on an object whose cache dict was not replaced by the first call returns
+    the same image and changes nothing (`method_cache`). -/
+theorem query_colour_idempotent (k : Kind) (iw : List Nat) (s : Stream) (c : Nat) (st : ObjState) (im : Image)
+    (h : (queryColour k iw s c st).2 = .ok im) (hg : (queryColour k iw s c st).1.gen = st.gen) :
+    queryColour k iw s c (queryColour k iw s c st).1 = ((queryColour k iw s c st).1, .ok im) :=
+  queryColour_idempotent k iw s c st im h hg
+
+example := query_colour_idempotent (.kymo 2) [0, 1, 2, 2] ⟨0, [5, 6, 7, 8]⟩ 1 ObjState.fresh ⟨[2, 1], [13, 8]⟩
+  (by decide) (by decide)
 
 end Verif.C02
